@@ -113,6 +113,21 @@ def programs(reqbuf, quick):
     return P
 
 
+BIG_FILES = (100, 5000, 70000, 1048570, 1048571, 2000000)
+WORLD_ENV = {"NLVERIF_C15": "value one", "NLVERIF_C15_LONG": "L" * 9000}
+
+
+def make_world(work):
+    """the files both runs see (the environment part is WORLD_ENV)"""
+    os.makedirs(os.path.join(work, "c15.emptydir"), exist_ok=True)
+    os.makedirs(os.path.join(work, "c15.dir3"), exist_ok=True)
+    for n in "abc":
+        open(os.path.join(work, "c15.dir3", n), "w").close()
+    for n in BIG_FILES:
+        with open(os.path.join(work, "c15.big%d" % n), "w") as f:
+            f.write("x" * n)
+
+
 def run(ctx):
     quick = ctx.tier == "quick"
     tree = ctx.build("plain")
@@ -165,15 +180,8 @@ def run(ctx):
 
     # ---------------------------------------------------------------- 2. programs: in process versus isolated
     progs = programs(reqbuf, quick)
-    # the world both runs see
-    os.makedirs(os.path.join(work, "c15.emptydir"), exist_ok=True)
-    os.makedirs(os.path.join(work, "c15.dir3"), exist_ok=True)
-    for n in "abc":
-        open(os.path.join(work, "c15.dir3", n), "w").close()
-    for n in (100, 5000, 70000, 1048570, 1048571, 2000000):
-        with open(os.path.join(work, "c15.big%d" % n), "w") as f:
-            f.write("x" * n)
-    world = {"NLVERIF_C15": "value one", "NLVERIF_C15_LONG": "L" * 9000}
+    make_world(work)
+    world = dict(WORLD_ENV)
     argsizes = sorted({a for (_, _, _, a, _) in progs})
     # the protocol model, fault-free, for exactly these argument sizes
     rp0 = tlc(ctx, "CopProtocol", "CopProtocol", constants=L.protocol_constants(c, steps=[], kinds=[], argsizes=argsizes), workers=4, deadlock=True)
@@ -304,8 +312,11 @@ def replay(ctx, path):
         print(p.stdout)
         bad = p.returncode != 0 or any('"ok":false' in l for l in p.stdout.splitlines())
     else:
+        make_world(work)
         nvm, err = L.compile_nano(ctx, tree, d["source"], "p", work)
         a = L.run_vm(ctx, tree, runner, nvm, work, "inproc", isolate=False, extra_env=d.get("env"))
+        if os.path.exists(os.path.join(work, "c15.data")):
+            os.remove(os.path.join(work, "c15.data"))
         b = L.run_vm(ctx, tree, runner, nvm, work, "isolated", isolate=True, cop_dir=os.path.join(tree, "bin"), extra_env=d.get("env"))
         print("in process: %s %s\n%s" % (a["res"], a["code"], a["stdout"].decode(errors="replace")[:1500]))
         print("isolated:   %s %s\n%s\n%s" % (b["res"], b["code"], b["stdout"].decode(errors="replace")[:1500], b["stderr"][-400:]))
